@@ -49,7 +49,7 @@ func TestC14Roster(t *testing.T) {
 		"rapid state machine over addNextEpochNodes (batch sizes 1,2,3,100,126,127,128,129,200 so that the per-vector counter crosses 127/255/256; wrong key lengths; vector gaps; missing Alphabet) and commitContainerListUpdate (REP lists, empty commits, re-commits) on two containers; after every step nodes(cid,i) for i=0..maxVector+1 and replicasNumbers(cid) are compared IN ORDER with the roster model and the raw pending keys must equal the model's pending roster; non-trivial = a committed vector longer than 127 keys or a re-commit replacing a non-empty roster",
 		"keys are opaque 33-byte strings for the roster (the contract does not parse them)")
 	runRapid(t, col, func(rt *rapid.T, h *ev.History) {
-		w := newCntWorld(1, h, 0, 0)
+		w := newCntWorld(rapid.SampledFrom([]int{1, 1, 3}).Draw(rt, "n"), h, 0, 0)
 		defer w.close()
 		m := &rosterModel{pending: map[string]map[int][][]byte{}, current: map[string]map[int][][]byte{}, reps: map[string][]int{}}
 		cids := [][]byte{detBytes("cid-A", 32), detBytes("cid-B", 32)}
@@ -115,7 +115,7 @@ func TestC14Roster(t *testing.T) {
 			withAlpha := rapid.IntRange(0, 9).Draw(rt, "noAlpha") != 0
 			signers := w.alpha
 			if !withAlpha {
-				signers = []neotest.Signer{w.owners[0]}
+				signers = deficientSigners(rt, w.c, w.owners[0])
 			}
 			if rapid.IntRange(0, 3).Draw(rt, "isCommit") == 0 {
 				nrep := rapid.IntRange(0, 4).Draw(rt, "nrep")
